@@ -16,7 +16,7 @@ import (
 
 func init() { register(&profile{id: "C06", num: 6, name: "robust-parse", run: runRobustParse}) }
 
-var robustWorlds = []*world{worldIni, worldExpr, worldHeredoc, worldBasic, worldConformance, worldCallbacks, worldDurations}
+var robustWorlds = []*world{worldIni, worldExpr, worldHeredoc, worldBasic, worldConformance, worldCallbacks, worldDurations, worldMisc}
 
 // lineCol recomputes line and column (1-based, column in runes) of a byte offset in d.
 func lineCol(d string, off int) (line, col int) {
